@@ -21,7 +21,7 @@ DEFAULT_W = dict(label=10, const=3, instr=24, data=10, string=4, fill=4, zerount
 FAULTS = ['diamond_include', 'includer_file_label', 'nested_dup_include', 'undef_ref', 'register_ref', 'local_no_region', 'dup_label', 'neg_fill', 'align0', 'bad_escape', 'overflow',
           'unknown_zone', 'org_out', 'overlap', 'dup_include', 'missing_include', 'ambiguous_include', 'unmatched',
           'dup_zone', 'bad_zone', 'enum_bad', 'range_bad', 'const_fwd', 'dup_define', 'keyword_label', 'cross_region',
-          'cross_file']
+          'cross_file', 'dup_label_same_line']
 
 
 def base_cfg(rng, prof):
@@ -408,6 +408,13 @@ class ProgGen:
                 i = rng.choice(labs)
                 # half of the time right behind the original: same scope, same value
                 main.insert(i + 1 if rng.random() < 0.5 else pos, list(main[i]))
+        elif kind == 'dup_label_same_line' and len(files) > 1:
+            # the same global name defined in the main file and in an included file, on the same line number of each
+            inc = files[rng.randrange(1, len(files))]['stmts']
+            j = rng.randint(0, min(len(main), len(inc)))
+            d = rng.choice([['label', 'xdup'], ['label', 'xdup'], ['const', 'XDUP', num(5)]])
+            main.insert(j, list(d))
+            inc.insert(j, list(d))
         elif kind == 'neg_fill':
             main.insert(pos, ['fill', num(-2), num(9)])
         elif kind == 'align0':
@@ -607,8 +614,11 @@ def gen_placement(rng, tier):
         cut = rng.randint(1, len(stmts) - 1)
         files = [{'name': 'main.asm', 'dir': 'src', 'stmts': stmts[:cut] + [['include', 1, 'inc1.asm']]},
                  {'name': 'inc1.asm', 'dir': 'src', 'stmts': stmts[cut:]}]
+    # the image window mostly covers everything placed; now and then it starts above or ends below some of the lines
+    # (what lies outside the window is left out of the image, it is still checked for overlaps)
     return {'cfg': cfg, 'files': files, 'include_dirs': [], 'extra_files': [], 'fault': 'placement',
-            'opts': {'start': 0x18, 'end': 0x3f, 'fill': 0xEE}}
+            'opts': {'start': rng.choice([0x18, 0x18, 0x18, 0x20, 0x26, 0x2c]), 'end': rng.choice([0x3f, 0x3f, 0x3f, 0x30, 0x2d]),
+                     'fill': 0xEE}}
 
 
 def gen_paste_pair(rng, tier):
